@@ -32,7 +32,11 @@ pub fn has_any_self_by_value<'s>(
     mut signatures: impl Iterator<Item = &'s syn::Signature>,
 ) -> TakesSelfByValue {
     TakesSelfByValue(signatures.any(|sig| match sig.inputs.first() {
-        Some(syn::FnArg::Receiver(receiver)) => receiver.reference.is_none(),
+        // `self` or `self: Self` (a typed receiver like `self: &Self` has no `reference` either)
+        Some(syn::FnArg::Receiver(receiver)) => {
+            receiver.reference.is_none()
+                && matches!(receiver.ty.as_ref(), syn::Type::Path(ty) if ty.path.is_ident("Self"))
+        }
         _ => false,
     }))
 }
